@@ -3,4 +3,7 @@ EXTENDS XpmJobDir
 (* launches are only possible through the launcher protocol or directly (a re-run of the script) *)
 MCInit == Init /\ done = FALSE
 MCSpec == MCInit /\ [][Next]_vars
+(* three launches: at most two of them receive a signal, and no launch fails on its own (the two-launch configuration
+   explores every combination) *)
+ThreeBound == Cardinality({p \in Procs : sig[p] # NONE}) <= 2 /\ \A p \in Procs : ~fails[p]
 =============================================================================
